@@ -16,7 +16,7 @@ import ast
 from ..flow import PathEnum
 from ..model import AnalysisError, Func, Repo, dotted, is_name, norm, walk_shallow
 from ..report import Ledger
-from ..sym import eq0, B, Const, Lin, Range, Slice, State, Sym, SymExec, Tup, as_lin, b_not, cmp_lin, opaque, NotNumeric
+from ..sym import eq0, B, b_and, Const, Lin, Range, Slice, State, Sym, SymExec, Tup, as_lin, b_not, cmp_lin, opaque, NotNumeric
 from ..util import paths
 
 PROP = "C12"
@@ -128,20 +128,68 @@ def _conjuncts(test):
     return [test]
 
 
-def _bounds(conj, var, direction, seq_txt):
-    """Does this conjunct bound `var` on the side it moves towards?"""
+def _alin(e):
+    """AST integer expression -> Lin over atoms (names, len(x), other subexpressions by text); None when not linear."""
+    if isinstance(e, ast.Constant) and isinstance(e.value, int) and not isinstance(e.value, bool):
+        return Lin.const(e.value)
+    if isinstance(e, ast.Name):
+        return Lin.atom(e.id)
+    if isinstance(e, ast.UnaryOp) and isinstance(e.op, ast.USub):
+        v = _alin(e.operand)
+        return None if v is None else v.scale(-1)
+    if isinstance(e, ast.BinOp) and isinstance(e.op, ast.Add | ast.Sub):
+        a, b = _alin(e.left), _alin(e.right)
+        if a is None or b is None:
+            return None
+        return a + b if isinstance(e.op, ast.Add) else a - b
+    if isinstance(e, ast.Call | ast.Attribute | ast.Subscript):
+        return Lin.atom(norm(e))
+    return None
+
+
+def _le_forms(conj):
+    """comparison -> list of Lin L with the meaning L <= 0 (integers)"""
     if not isinstance(conj, ast.Compare) or len(conj.ops) != 1:
-        return False
-    l, op, r = conj.left, conj.ops[0], conj.comparators[0]
-    if direction == 1:
-        if is_name(l, var) and isinstance(op, ast.Lt | ast.LtE):
-            return True
-        if is_name(r, var) and isinstance(op, ast.Gt | ast.GtE):
-            return True
-    if direction == -1:
-        if is_name(l, var) and isinstance(op, ast.Gt | ast.GtE):
-            return True
-        if is_name(r, var) and isinstance(op, ast.Lt | ast.LtE):
+        return []
+    a, b = _alin(conj.left), _alin(conj.comparators[0])
+    if a is None or b is None:
+        return []
+    op = conj.ops[0]
+    if isinstance(op, ast.Lt):
+        return [a - b + 1]
+    if isinstance(op, ast.LtE):
+        return [a - b]
+    if isinstance(op, ast.Gt):
+        return [b - a + 1]
+    if isinstance(op, ast.GtE):
+        return [b - a]
+    if isinstance(op, ast.Eq):
+        return [a - b, b - a]
+    return []
+
+
+def _coef(lin: Lin, atom: str):
+    return lin.t.get(atom, 0) if isinstance(lin.t, dict) else dict(lin.t).get(atom, 0)
+
+
+def _bounds(conj, var, direction, seq_txt, index=None):
+    """Does this conjunct bound the subscript `index` (default: var itself) on the side `var` moves towards?
+    -> True (bounded) / False (not a bound on that side) / "short" (a bound that still lets the subscript leave the sequence)"""
+    index = index if index is not None else Lin.atom(var)
+    for L_ in _le_forms(conj):
+        c = _coef(L_, var)
+        if direction == 1 and c > 0:
+            # L = var + rest <= 0.  Against len(seq): index <= len - 1 must follow
+            want = index - Lin.atom(f"len({seq_txt})") + 1
+            d = want - L_
+            if c == 1 and d.is_const():
+                return True if d.c <= 0 else "short"
+            return True  # bounded by another index (e.g. i <= j)
+        if direction == -1 and c < 0:
+            want = index.scale(-1)  # -index <= 0
+            d = want - L_
+            if c == -1 and d.is_const():
+                return True if d.c <= 0 else "short"
             return True
     return False
 
@@ -162,8 +210,10 @@ def _r2(repo, L, scope):
                 # position of the conjunct holding the subscript
                 pos = next(i for i, c in enumerate(conj) if any(x is s for x in ast.walk(c)))
                 before = conj[:pos]
-                if isinstance(s.slice, ast.Name):
-                    var = s.slice.id
+                ixl = _alin(s.slice)
+                ixvars = [a for a in (dict(ixl.t) if ixl is not None else {}) if isinstance(a, str) and a.isidentifier() and _moves(w.body, a)]
+                if ixl is not None and not ixl.is_const() and len(ixvars) == 1 and _coef(ixl, ixvars[0]) == 1:
+                    var = ixvars[0]
                     dirs = _moves(w.body, var)
                     if not dirs:
                         continue  # index not moved by this loop: not an index walk
@@ -172,12 +222,13 @@ def _r2(repo, L, scope):
                         L.fail("R2", inst, f"index '{var}' is moved in an unrecognised way inside a loop that subscripts {seq_txt}[{var}]", f.loc(w))
                         continue
                     d = dirs.pop()
-                    ok = any(_bounds(c, var, d, seq_txt) for c in before)
+                    res = [_bounds(c, var, d, seq_txt, ixl) for c in before]
+                    ok = any(r is True for r in res)
                     side = "upper" if d == 1 else "lower"
                     L.check(
                         ok, "R2", inst,
                         f"index '{var}' bounded on its {side} side before the subscript",
-                        f"loop walks '{var}' {'upwards' if d == 1 else 'downwards'} while subscripting {seq_txt}[{var}] with no {side} bound in the test: a run of matching rows reaching the {'end' if d == 1 else 'start'} of the sequence {'raises IndexError' if d == 1 else 'wraps through index -1'}",
+                        f"loop walks '{var}' {'upwards' if d == 1 else 'downwards'} while subscripting {seq_txt}[{norm(s.slice)}] with no sufficient {side} bound in the test: a run of matching rows reaching the {'end' if d == 1 else 'start'} of the sequence {'raises IndexError' if d == 1 else 'wraps through index -1'}",
                         f.loc(w),
                         witness={"scaffold": "[frag, gap]" if d == 1 else "[gap, frag]", "query": "an interval covering only the terminal gap"},
                     )
@@ -344,18 +395,75 @@ def _r345(repo, L, ia, find: Func):
                     okk, why = False, f"row m accepted as overlapping under {facts}, expected both not({left_of}) and not({right_of})"
         L.check(okk, "R5", inst, "left-of / right-of / overlapping tests are exact one-sided disjointness", why, find.loc(bs_loop))
 
-    # no row is accepted before it has been compared with the bait: the hit variable starts as None
-    if found_var is not None:
-        init_v = st1.env.get(found_var)
-        ok_init_f = isinstance(init_v, Const) and init_v.v is None
-        L.check(ok_init_f, "R5", f"{find.short}:hit-init", "hit index starts as None (every hit comes out of the comparison)", f"the hit index '{found_var}' starts as {init_v!r}: a row can be returned without ever being compared with the query (e.g. a single-row scaffold queried beyond its end)", find.loc(bs_loop), witness={"scaffold": "[frag(1..100)]", "query": "200..300", "expected": None})
+    # no row is accepted before it has been compared with the bait: when the window is exhausted without a hit
+    # (loop left through its test, not through the found-break) the function returns None before anything else
+    ext_first = next((n for n in body[body.index(bs_loop) + 1:] if isinstance(n, ast.While | ast.For)), None)
+    seg = body[body.index(bs_loop): body.index(ext_first)] if ext_first is not None else body[body.index(bs_loop):]
+    exh = [r for r in ex.run_block(seg, st1.clone(), find, loop_iters=(0,)) if r.status != "infeasible"]
+    ok_exh = bool(exh) and all(r.status == "return" and isinstance(r.ret, Const) and r.ret.v is None for r in exh)
+    fv_txt = found_var or "hit"
+    L.check(
+        ok_exh, "R5", f"{find.short}:hit-init", "an exhausted search window returns None (every hit comes out of the comparison)",
+        f"with an empty search window (no row compared) the function does not return None: the hit index '{fv_txt}' is "
+        + (f"{st1.env.get(found_var)!r}" if found_var and found_var in st1.env else "unset")
+        + " and a row can be returned without ever being compared with the query (e.g. a single-row scaffold queried beyond its end)",
+        find.loc(bs_loop), witness={"scaffold": "[frag(1..100)]", "query": "200..300", "expected": None},
+    )
     # not found => None
     after_bs = body[body.index(bs_loop) + 1:]
     # ---- R5b extension loops
-    if len(fors) < 2:
-        raise AnalysisError(f"expected two extension for-loops in find_overlaps, found {len(fors)}")
+    ext_whiles = [w for w in whiles if w is not bs_loop and body.index(w) > body.index(bs_loop) and any(isinstance(x, ast.Subscript) and is_name(x.value, idx_var) for x in ast.walk(w.test))]
+    if len(fors) + len(ext_whiles) < 2:
+        raise AnalysisError(f"expected two extension loops in find_overlaps, found {len(fors) + len(ext_whiles)}")
     seen_dirs = set()
     first_v = last_v = None
+    for w in ext_whiles:
+        s3 = st1.clone()
+        if found_var:
+            s3.env[found_var] = Lin.atom("ovr")
+        for stmt in after_bs:
+            if stmt is w:
+                break
+            if isinstance(stmt, ast.Assign):
+                for r in ex.run_block([stmt], s3, find, loop_iters=(0,)):
+                    s3 = r
+        if w.orelse:
+            raise AnalysisError("extension while-loop with an else clause: not understood")
+        moved_vars = sorted({t.id for b in w.body for x in [b, *walk_shallow(b)] if isinstance(x, ast.AugAssign | ast.Assign) for t in ([x.target] if isinstance(x, ast.AugAssign) else x.targets) if isinstance(t, ast.Name)})
+        if len(moved_vars) != 1 or _moves(w.body, moved_vars[0]) not in ({1}, {-1}):
+            raise AnalysisError(f"extension while-loop at line {w.lineno}: the boundary index it moves is not recognised ({moved_vars})")
+        var = moved_vars[0]
+        d = _moves(w.body, var).pop()
+        direction = "left" if d == -1 else "right"
+        seen_dirs.add(direction)
+        try:
+            ok_init = as_lin(s3.env.get(var)) == Lin.atom("ovr")
+        except Exception:
+            ok_init = False
+        L.check(ok_init, "R5", f"{find.short}:extend-{direction}:range", f"{direction} extension starts at the hit and visits every row {direction} of it", f"{direction} extension starts from {s3.env.get(var)!r}, not from the hit", find.loc(w))
+        k = Lin.atom("k")
+        s4 = s3.clone()
+        s4.env[var] = k - d
+        tb = ex.truth(ex.eval(w.test, s4, find))
+        bound = cmp_lin(">=", k, Lin.const(0)) if d == -1 else cmp_lin("<", k, Lin.atom("len(idx)"))
+        excl = cmp_lin("<", row_end(k), bs) if d == -1 else cmp_lin(">", row_start_nz(k), be)
+        want = b_and([bound, b_not(excl)])
+        conj_got = set(map(repr, tb.a if tb.kind == "and" else [tb]))
+        conj_want = set(map(repr, want.a if want.kind == "and" else [want]))
+        okx, whyx = conj_got == conj_want, f"{direction} extension continues while {tb!r}; it must continue exactly while the next row exists and is not disjoint on that side: {want!r}"
+        outs = [r for r in ex.run_block(w.body, s4.clone(), find, loop_iters=(0,)) if r.status != "infeasible"]
+        for r in outs:
+            try:
+                stepped = as_lin(r.env.get(var)) == k
+            except Exception:
+                stepped = False
+            if r.status != "run" or not stepped:
+                okx, whyx = False, f"{direction} extension body does not simply step the boundary onto the accepted row (status {r.status}, {var} = {r.env.get(var)!r})"
+        L.check(okx, "R5", f"{find.short}:extend-{direction}", f"extends while the row intersects the bait on the {direction} side", whyx, find.loc(w))
+        if direction == "left":
+            first_v = var
+        else:
+            last_v = var
     for fl in fors:
         s3 = st1.clone()
         if found_var:
